@@ -366,6 +366,20 @@ def main(argv=None):
         need = list(getattr(c_, "implied_by", None) or [])
         if need and all(n_ in _proved for n_ in need):
             implied_views[c_.target] = need
+    # opt-in (pack attribute CALL_SITE_VIEWS = {target: why the verified contract implies the assumed registration}): a target that
+    # is registered twice -- VERIFIED on its real body and, abbreviated, as the view its callers use -- is reported as assumed only
+    # while some obligation of the verified registration is not discharged (additive: packs without the attribute are unaffected)
+    views, views_open = {}, {}
+    try:
+        for tgt, why in dict(getattr(pack, "CALL_SITE_VIEWS", {}) or {}).items():
+            qn = tgt.split("/")[-1]
+            mine = [o for o in obligations if o["id"].startswith(f"{prop}/{qn}/")]
+            if mine and all(o["status"] in ("proved", "discharged") for o in mine) and any(c.target == tgt for c in todo):
+                views[tgt] = why
+            elif mine:
+                views_open[tgt] = [o["id"] for o in mine if o["status"] not in ("proved", "discharged")]      # still listed under assumed_contracts
+    except Exception:  # noqa
+        views, views_open = {}, {}
     evidence = {
         "property_id": prop, "tier": tier, "seed": seed, "level": "proof",
         "coverage": {
@@ -380,9 +394,10 @@ def main(argv=None):
                 "CPython ast module"],
             "samples": samples,
             "functions_under_contract": fn_infos,
-            "assumed_contracts": sorted(({c.target for c in assumed} | assumed_used | set(getattr(pack, "ASSUMED_MODELS", []))) - verified_assumed - set(implied_views)),
+            "assumed_contracts": sorted(({c.target for c in assumed} | assumed_used | set(getattr(pack, "ASSUMED_MODELS", []))) - verified_assumed - set(implied_views) - set(views)),
             **({"call_site_contracts_verified_in_this_run": sorted(verified_assumed)} if verified_assumed else {}),
-            **({"call_site_views_of_verified_contracts": implied_views} if implied_views else {}),
+            **({"call_site_views_of_verified_contracts": {**implied_views, **views}} if (implied_views or views) else {}),
+            **({"call_site_views_with_open_obligations": views_open} if views_open else {}),
             "bounded_functions_run_in_thorough_tier_only": skipped_bounded,
             "by_backend_vcs": by_backend,
             "second_solver_cross_check": cross,
